@@ -1,6 +1,7 @@
 import AtreeProofs.World.HeapMapR
 import AtreeProofs.Props.C10Persist
 import AtreeProofs.Map.ExportTree
+import AtreeProofs.Map.Example
 /-
   "SET STORES THE HOLDER SLAB" for maps.
 
@@ -11,21 +12,51 @@ import AtreeProofs.Map.ExportTree
   content changed; this is the lemma about the map core that `Props/C10Persist.lean`
   (`DeepStored`) is missing.
 
+  Proof: along the run (`HkeyElems.set` at the first level, `MDataSlab.set`, `afterChild` at every
+  index slab: split / merge / rebalance / plain store, `promoteIfSingleChild`, `splitRootIfFull`)
+  the fact "some slab of the current tree locally holds `v`, and a `.store` of its ID was logged
+  since the start" (`MapHolder.HoldS`) is maintained: the data slab is stored by
+  `storeIfNotInlined`, a group slab by `groupSlabUpdate` / by its export, and every repair step
+  stores all the data slabs it rewrites while group slabs move with their `.ext` element.  At the
+  end the ID is a key of the new tree, so by the C09 account (`MAcct.removed`) its last action is
+  not a removal; having been stored, its last action is a store.  No distinctness argument about
+  the later effects is needed.
+
   Second part: every value of `MTree.toList` lives in exactly one slab (`mslab_vals_perm`,
   `mslab_vals_sub`, `mslab_positions`).
+
+  Everything is proved for any number `r + 1` of digest levels; `r = 3` is the World model.
+  Helper definitions and lemmas are in the namespace `Atree.MapHolder`.
 -/
 namespace Atree
 open Gen
 open C10Persist (localVals)
 
+/-- the values stored locally in a map slab (not those inside external groups referenced from it);
+    at `r = 3` this is `C10Persist.slabElems` on map slabs (`slabElems_map`) -/
+def mslabVals {r : Nat} : MSlabView r → List Elem
+  | .data s => localVals (r + 1) s.elems
+  | .index .. => []
+  | .group g => localVals r g.elems
+
+/- helper definitions and lemmas live in `Atree.MapHolder` -/
+namespace MapHolder
+
+/-! ### the values stored locally in a list of elements -/
+
 section vals
 variable {α : Type}
+/-- the values an element contributes to the slab it sits in (`vals`: the values of a nested
+    `elements`); an external group contributes nothing, its values are in its own slab -/
 def elVals (vals : α → List Elem) : MElemF α → List Elem
   | .single x => [x.val]
   | .inl g => vals g
   | .ext _ _ _ => []
 end vals
 
+/-- below the first level, `set` of a value that fits the inline limit (so that `toStorableLim`
+    leaves it alone) puts the value into the `elements` and does not touch the context; generic
+    over `ElemsOps` and inherited by `HkeyElems.ops` -/
 structure OpsVal (cfg : MCfg) (v : Elem) {α : Type} (o : ElemsOps α) (P : α → Prop) (vals : α → List Elem) : Prop where
   set : ∀ {e : α} {ℓ : Nat} {k : MKey} {c : Ctx} {ks : MKey} {old : Option Elem} {e' : α} {c' : Ctx},
     P e → 1 ≤ ℓ → v.size ≤ maxInlineMapValue cfg.T k.size →
@@ -223,9 +254,9 @@ theorem HkeyElems.opsVal {P : α → Prop} {vals : α → List Elem} {v : Elem} 
 end paths
 
 /-- one digest per element at every level, no external group anywhere -/
-def Good : (r : Nat) → MElems r → Prop
+def GoodElems : (r : Nat) → MElems r → Prop
   | 0, _ => True
-  | r + 1, (he : HkeyElems (MElems r)) => HG (Good r) he
+  | r + 1, (he : HkeyElems (MElems r)) => HG (GoodElems r) he
 
 theorem localVals_succ (r : Nat) (he : HkeyElems (MElems r)) :
     localVals (r + 1) he = he.elems.flatMap (elVals (localVals r)) := by
@@ -234,7 +265,7 @@ theorem localVals_succ (r : Nat) (he : HkeyElems (MElems r)) :
   funext el
   cases el <;> rfl
 
-theorem MElems.opsVal (cfg : MCfg) (v : Elem) : ∀ r, OpsVal cfg v (MElems.ops r) (Good r) (localVals r)
+theorem MElems.opsVal (cfg : MCfg) (v : Elem) : ∀ r, OpsVal cfg v (MElems.ops r) (GoodElems r) (localVals r)
   | 0 => SingleElems.opsVal cfg v
   | r + 1 => by
     have h := HkeyElems.opsVal (MElems.opsVal cfg v r)
@@ -244,7 +275,7 @@ theorem MElems.opsVal (cfg : MCfg) (v : Elem) : ∀ r, OpsVal cfg v (MElems.ops 
     exact h
 
 theorem good_of_inv {T L : Nat} {D : DigestFn L} : ∀ (r ℓ : Nat) (path : List Nat) (e : MElems r),
-    ElemsInv T L D r ℓ path e → 1 ≤ ℓ → Good r e
+    ElemsInv T L D r ℓ path e → 1 ≤ ℓ → GoodElems r e
   | 0, _, _, _, _, _ => trivial
   | r + 1, ℓ, path, he, h, hℓ => by
     have h' := (elemsInv_succ_iff T L D r ℓ path he).mp h
@@ -263,7 +294,7 @@ theorem good_of_inv {T L : Nat} {D : DigestFn L} : ∀ (r ℓ : Nat) (path : Lis
 
 theorem firstGood_of_inv {T L r : Nat} {DL : DigestFn L} {he : HkeyElems (MElems r)}
     (h : ElemsInv T L DL (r + 1) 0 [] he) :
-    he.hkeys.length = he.elems.length ∧ ∀ el ∈ he.elems, FirstOk (Good r) el := by
+    he.hkeys.length = he.elems.length ∧ ∀ el ∈ he.elems, FirstOk (GoodElems r) el := by
   have h' := (elemsInv_succ_iff T L DL r 0 [] he).mp h
   obtain ⟨_, _, hlen, _, _, hel⟩ := h'
   refine ⟨hlen, ?_⟩
@@ -315,12 +346,6 @@ theorem StoredSince.emit (c : Ctx) (id : SlabID) : StoredSince c (c.emit (.store
   ⟨[.store id], rfl, by simp⟩
 
 variable {r : Nat}
-
-/-- the values stored locally in a map slab (not those inside external groups referenced from it) -/
-def mslabVals : MSlabView r → List Elem
-  | .data s => localVals (r + 1) s.elems
-  | .index .. => []
-  | .group g => localVals r g.elems
 
 /-- some slab of `S` locally holds `v` and was stored since `c0` -/
 def HoldS (v : Elem) (S : List (SlabID × MSlabView r)) (c0 c : Ctx) : Prop :=
@@ -780,6 +805,11 @@ theorem omap_set_holds {cfg : MCfg} {m : OMap r} (hcfg : CfgOk cfg T m) (h : Map
       obtain ⟨_, rfl, rfl⟩ := hr
       exact rootfix_holds cfg.T d root' ty _ seed c1 m3 c3 h1 hfix
 
+end MapHolder
+open MapHolder
+
+variable {r : Nat} {T : Nat} {D : DigestFn (r + 1)}
+
 /-- SET STORES THE HOLDER SLAB: after a successful `OMap.set` of a value that fits the inline limit
     on a standalone map there is a slab of the NEW tree whose local values contain `v` and whose
     last action in the log of this operation is a store — whether or not `v` differs from the
@@ -803,5 +833,260 @@ theorem omap_set_stores_holder (hT : legalThreshold T = true) {cfg : MCfg} {m : 
     | true => rfl
     | false => exact absurd (mem_keys_of_mem hmem) (hacct.removed id hl)
 
+
+/-! ### every value lives in exactly one slab -/
+
+namespace MapHolder
+
+section lists
+variable {α β : Type}
+
+theorem flatMap_congr_mem {l : List α} {f g : α → List β} (h : ∀ a ∈ l, f a = g a) : l.flatMap f = l.flatMap g := by
+  induction l with
+  | nil => rfl
+  | cons a l ih =>
+    rw [List.flatMap_cons, List.flatMap_cons, h a List.mem_cons_self,
+      ih (fun b hb => h b (List.mem_cons_of_mem _ hb))]
+
+theorem perm_flatMap_mem {l : List α} {f g : α → List β} (h : ∀ a ∈ l, (f a).Perm (g a)) :
+    (l.flatMap f).Perm (l.flatMap g) := by
+  induction l with
+  | nil => exact List.Perm.refl _
+  | cons a l ih =>
+    rw [List.flatMap_cons, List.flatMap_cons]
+    exact (h a List.mem_cons_self).append (ih (fun b hb => h b (List.mem_cons_of_mem _ hb)))
+
+/-- a permutation moves two different positions to two different positions -/
+theorem perm_two_pos {l1 l2 : List β} (h : l1.Perm l2) : ∀ {a b : β} {p q : Nat}, p ≠ q → l1[p]? = some a → l1[q]? = some b →
+    ∃ i j : Nat, i ≠ j ∧ l2[i]? = some a ∧ l2[j]? = some b := by
+  induction h with
+  | nil => intro a b p q _ h1; simp at h1
+  | @cons x l1 l2 hp ih =>
+    intro a b p q hne h1 h2
+    cases p with
+    | zero =>
+      cases q with
+      | zero => exact absurd rfl hne
+      | succ q =>
+        simp only [List.getElem?_cons_succ] at h2
+        obtain ⟨j, hj⟩ := List.mem_iff_getElem?.1 (hp.mem_iff.1 (List.mem_iff_getElem?.2 ⟨q, h2⟩))
+        exact ⟨0, j + 1, by omega, h1, by simpa using hj⟩
+    | succ p =>
+      cases q with
+      | zero =>
+        simp only [List.getElem?_cons_succ] at h1
+        obtain ⟨i, hi⟩ := List.mem_iff_getElem?.1 (hp.mem_iff.1 (List.mem_iff_getElem?.2 ⟨p, h1⟩))
+        exact ⟨i + 1, 0, by omega, by simpa using hi, h2⟩
+      | succ q =>
+        simp only [List.getElem?_cons_succ] at h1 h2
+        obtain ⟨i, j, hij, hi, hj⟩ := ih (by omega) h1 h2
+        exact ⟨i + 1, j + 1, by omega, by simpa using hi, by simpa using hj⟩
+  | swap x y l =>
+    intro a b p q hne h1 h2
+    have key : ∀ (n : Nat) (e : β), (y :: x :: l)[n]? = some e →
+        ∃ n', (x :: y :: l)[n']? = some e ∧ (n' = 0 ↔ n = 1) ∧ (n' = 1 ↔ n = 0) ∧ (2 ≤ n' → n' = n) := by
+      intro n e hn
+      match n, hn with
+      | 0, hn => exact ⟨1, by simpa using hn, by omega, by omega, by omega⟩
+      | 1, hn => exact ⟨0, by simpa using hn, by omega, by omega, by omega⟩
+      | n + 2, hn => exact ⟨n + 2, by simpa using hn, by omega, by omega, by omega⟩
+    obtain ⟨i, hi, i0, i1, i2⟩ := key p a h1
+    obtain ⟨j, hj, j0, j1, j2⟩ := key q b h2
+    exact ⟨i, j, by omega, hi, hj⟩
+  | trans _ _ ih1 ih2 =>
+    intro a b p q hne h1 h2
+    obtain ⟨i, j, hij, hi, hj⟩ := ih1 hne h1 h2
+    exact ih2 hij hi hj
+
+/-- members of the images of two different members of `S` sit at different positions of `S.flatMap f` -/
+theorem flatMap_two_pos {S : List α} {f : α → List β} {x y : α} {a b : β} (hx : x ∈ S) (hy : y ∈ S) (hne : x ≠ y)
+    (ha : a ∈ f x) (hb : b ∈ f y) : ∃ p q : Nat, p ≠ q ∧ (S.flatMap f)[p]? = some a ∧ (S.flatMap f)[q]? = some b := by
+  induction S with
+  | nil => cases hx
+  | cons z S ih =>
+    rw [List.flatMap_cons]
+    have inl : ∀ e, e ∈ f z → ∃ p, p < (f z).length ∧ (f z ++ S.flatMap f)[p]? = some e := by
+      intro e he
+      obtain ⟨p, hp⟩ := List.mem_iff_getElem?.1 he
+      have hlt : p < (f z).length := (List.getElem?_eq_some_iff.1 hp).1
+      exact ⟨p, hlt, by rw [List.getElem?_append_left hlt]; exact hp⟩
+    have inr : ∀ e w, w ∈ S → e ∈ f w → ∃ p, (f z).length ≤ p ∧ (f z ++ S.flatMap f)[p]? = some e := by
+      intro e w hw he
+      obtain ⟨p, hp⟩ := List.mem_iff_getElem?.1 (List.mem_flatMap.2 ⟨w, hw, he⟩)
+      exact ⟨(f z).length + p, by omega, by rw [List.getElem?_append_right (by omega)]; simpa using hp⟩
+    rcases List.mem_cons.1 hx with rfl | hx'
+    · rcases List.mem_cons.1 hy with rfl | hy'
+      · exact absurd rfl hne
+      · obtain ⟨p, hp, h1⟩ := inl a ha
+        obtain ⟨q, hq, h2⟩ := inr b y hy' hb
+        exact ⟨p, q, by omega, h1, h2⟩
+    · rcases List.mem_cons.1 hy with rfl | hy'
+      · obtain ⟨p, hp, h1⟩ := inr a x hx' ha
+        obtain ⟨q, hq, h2⟩ := inl b hb
+        exact ⟨p, q, by omega, h1, h2⟩
+      · obtain ⟨p, q, hpq, h1, h2⟩ := ih hx' hy'
+        refine ⟨(f z).length + p, (f z).length + q, by omega, ?_, ?_⟩
+        · rw [List.getElem?_append_right (by omega)]; simpa using h1
+        · rw [List.getElem?_append_right (by omega)]; simpa using h2
+
+end lists
+
+variable {r : Nat}
+
+theorem toList_vals_succ (r : Nat) (he : HkeyElems (MElems r)) (hg : GoodElems (r + 1) he)
+    (ih : ∀ g : MElems r, GoodElems r g → ((MElems.ops r).toList g).map (·.2) = localVals r g) :
+    ((MElems.ops (r + 1)).toList he).map (·.2) = localVals (r + 1) he := by
+  show (he.elems.flatMap (fun el => el.toList (MElems.ops r))).map (·.2) = _
+  rw [localVals_succ, List.map_flatMap]
+  apply flatMap_congr_mem
+  intro el hel
+  have hP := hg.2 el hel
+  cases el with
+  | single x => rfl
+  | inl g => exact ih g hP
+  | ext _ _ _ => exact absurd hP (by simp [ElP])
+
+/-- without external groups the values of the dictionary of an `elements` are its local values -/
+theorem toList_vals : ∀ (r : Nat) (e : MElems r), GoodElems r e → ((MElems.ops r).toList e).map (·.2) = localVals r e
+  | 0, se, _ => by
+    show (SingleElems.elems se |>.map (fun x => (x.key, x.val))).map (·.2) = (SingleElems.elems se).map (·.val)
+    rw [List.map_map]; rfl
+  | r + 1, he, hg => toList_vals_succ r he hg (toList_vals r)
+
+/-- the values of the first-level elements `L`: those stored locally, and those of the external groups -/
+theorem first_vals_perm (L : List (MElemF (MElems r))) (hF : ∀ el ∈ L, FirstOk (GoodElems r) el) :
+    ((L.flatMap (fun el => el.toList (MElems.ops r))).map (·.2)).Perm
+      (L.flatMap (elVals (localVals r)) ++ (grp L).flatMap (fun p => localVals r p.2.elems)) := by
+  induction L with
+  | nil => exact List.Perm.refl _
+  | cons el L ih =>
+    have ih := ih (fun e he => hF e (List.mem_cons_of_mem _ he))
+    have hel := hF el List.mem_cons_self
+    rw [List.flatMap_cons, List.map_append, List.flatMap_cons]
+    cases el with
+    | single x =>
+      rw [grp_cons_single]
+      exact ih.cons x.val
+    | inl g =>
+      rw [grp_cons_inl, List.append_assoc]
+      have : (MElemF.toList (MElems.ops r) (.inl g)).map (·.2) = elVals (localVals r) (.inl g) := toList_vals r g hel
+      rw [this]
+      exact ih.append_left _
+    | ext id sz s =>
+      rw [grp_cons_ext, List.flatMap_cons]
+      have : (MElemF.toList (MElems.ops r) (.ext id sz s)).map (·.2) = localVals r s.elems := toList_vals r s.elems hel.2
+      rw [this]
+      show (localVals r s.elems ++ _).Perm ([] ++ _ ++ _)
+      rw [List.nil_append]
+      exact (ih.append_left _).trans (List.perm_append_comm_assoc _ _ _)
+
+variable {T : Nat} {D : DigestFn (r + 1)}
+
+theorem mslab_vals_perm_zero {top : Bool} (s : MDataSlab r) (h : MTreeInv T D 0 top s) :
+    ((MTree.toList 0 s).map (·.2)).Perm ((MTree.slabs 0 s).flatMap (fun p => mslabVals p.2)) := by
+  obtain ⟨_, hF⟩ := firstGood_of_inv ((mtreeInv_zero_iff T D top s).mp h).elems_inv
+  have h1 := first_vals_perm s.elems.elems hF
+  rw [mslabs_zero, List.flatMap_cons, groupSlabs_eq, List.flatMap_map]
+  show List.Perm _ (localVals (r + 1) s.elems ++ _)
+  rw [localVals_succ]
+  exact h1
+
+theorem mslab_vals_perm_succ {d : Nat} (m : MMetaSlab (MTree r d))
+    (ih : ∀ c ∈ m.children, ((MTree.toList d c).map (·.2)).Perm ((MTree.slabs d c).flatMap (fun p => mslabVals p.2))) :
+    ((MTree.toList (d + 1) m).map (·.2)).Perm ((MTree.slabs (d + 1) m).flatMap (fun p => mslabVals p.2)) := by
+  rw [mslabs_succ, List.flatMap_cons, List.flatMap_assoc]
+  show (List.map (·.2) (m.children.flatMap (MTree.toList d))).Perm ([] ++ _)
+  rw [List.nil_append, List.map_flatMap]
+  exact perm_flatMap_mem ih
+
+end MapHolder
+open MapHolder
+
+variable {r : Nat} {T : Nat} {D : DigestFn (r + 1)}
+
+/-- THE VALUES OF THE DICTIONARY ARE THE LOCAL VALUES OF THE SLABS, slab by slab (up to order:
+    the values of an external group come right after its data slab's own, not in digest order) -/
+theorem mslab_vals_perm : ∀ (d : Nat) (top : Bool) (t : MTree r d), MTreeInv T D d top t →
+    ((MTree.toList d t).map (·.2)).Perm ((MTree.slabs d t).flatMap (fun p => mslabVals p.2))
+  | 0, _, s, h => mslab_vals_perm_zero s h
+  | d + 1, top, m, h =>
+    mslab_vals_perm_succ m (fun c hc =>
+      mslab_vals_perm d false c (((mtreeInv_succ_iff T D d top m).mp h).1.2.2.2.2.1 c hc))
+
+/-- a locally stored value of a slab of the tree is a value of the dictionary -/
+theorem mslab_vals_sub {d : Nat} {top : Bool} {t : MTree r d} (h : MTreeInv T D d top t) {id : SlabID} {sv : MSlabView r}
+    (hm : (id, sv) ∈ MTree.slabs d t) : ∀ e ∈ mslabVals sv, e ∈ (MTree.toList d t).map (·.2) := by
+  intro e he
+  exact (mslab_vals_perm d top t h).mem_iff.2 (List.mem_flatMap.2 ⟨(id, sv), hm, he⟩)
+
+/-- values stored locally in two different slabs sit at two different positions of the dictionary -/
+theorem mslab_positions {d : Nat} {top : Bool} {t : MTree r d} (h : MTreeInv T D d top t)
+    {id1 id2 : SlabID} {sv1 sv2 : MSlabView r}
+    (h1 : (id1, sv1) ∈ MTree.slabs d t) (h2 : (id2, sv2) ∈ MTree.slabs d t) (hne : id1 ≠ id2)
+    {e1 e2 : Elem} (he1 : e1 ∈ mslabVals sv1) (he2 : e2 ∈ mslabVals sv2) :
+    ∃ i j : Nat, i ≠ j ∧ ((MTree.toList d t).map (·.2))[i]? = some e1 ∧ ((MTree.toList d t).map (·.2))[j]? = some e2 := by
+  obtain ⟨p, q, hpq, hp, hq⟩ := flatMap_two_pos (f := fun p : SlabID × MSlabView r => mslabVals p.2) h1 h2
+    (fun he => hne (congrArg Prod.fst he)) he1 he2
+  exact perm_two_pos (mslab_vals_perm d top t h).symm hpq hp hq
+
+
+/-! ### the statement at `r = 3` (the World model), and `slabElems` -/
+
+/-- `mslabVals` is `C10Persist.slabElems` on map slabs -/
+theorem slabElems_map (sv : MSlabView 3) (x : Option (Nat × Nat × Nat)) :
+    C10Persist.slabElems (.map sv x) = mslabVals sv := by
+  cases sv <;> rfl
+
+example (s : MDataSlab 3) : mslabVals (.data s) = localVals 4 s.elems := rfl
+example (g : GroupSlab (MElems 3)) : mslabVals (.group g : MSlabView 3) = localVals 3 g.elems := rfl
+
+example {T : Nat} {D : DigestFn 4} (hT : legalThreshold T = true) {cfg : MCfg} {m : OMap 3} (hcfg : CfgOk cfg T m)
+    (h : MapInv T D m) {k : MKey} (hk : KeyOk T 4 D k) {v : Elem} (hv1 : 1 ≤ v.size)
+    (hv2 : v.size ≤ maxInlineMapValue T k.size)
+    (c : Ctx) (hc : CtxOk m c) (hids : MIdsOk m) {old : Option Elem} {m' : OMap 3} {c' : Ctx}
+    (hr : m.set cfg k v c = .ok (old, m', c')) :
+    ∃ E C, MLog m.addr c c' E C ∧ ∃ id sv, (id, sv) ∈ MTree.slabs m'.d m'.root ∧ v ∈ mslabVals sv ∧
+      lastAction E id = some true :=
+  omap_set_stores_holder hT hcfg h hk hv1 hv2 c hc hids hr
+
+/-! ### Non-vacuity
+
+The example map `MapExample.run` of `AtreeProofs/Map/Example.lean` (`r = 1`, T = 256, owner 7): an
+index slab root `7.1` over the data slabs `7.3` and `7.4`, one external collision group `7.2`
+referenced from `7.3` holding the keys 311 … 321.  Writing to key 312 THE VALUE IT ALREADY HAS
+changes no slab; the group slab `7.2` (the holder), its data slab and the root are stored. -/
+namespace MapHolder
+section NonVacuity
+open MapExample
+open Atree.C09 (newEffects)
+
+def runSame : OMap 1 × Ctx := stepSet cfg2 run (key 312) (val 6)
+
+theorem stepSame : run.1.set cfg2 (key 312) (val 6) run.2 = .ok (some (val 6), runSame.1, runSame.2) := by rfl
+
+theorem run_ids : MIdsOk run.1 := by decide
+
+example : runSame.1.toList = run.1.toList := by decide
+example : newEffects run.2 runSame.2 = [.store ⟨7, 2⟩, .store ⟨7, 3⟩, .store ⟨7, 1⟩] := by decide
+/-- the local values of the four slabs of the new tree: `val 6` is in the group slab `7.2` only -/
+example : (MTree.slabs runSame.1.d runSame.1.root).map (fun p => (p.1, mslabVals p.2)) =
+    [(⟨7, 1⟩, []),
+     (⟨7, 3⟩, [val 16, val 2, val 3, val 4, val 1, val 19]),
+     (⟨7, 2⟩, [val 5, val 6, val 7, val 8, val 9]),
+     (⟨7, 4⟩, [val 11, val 17, val 12, val 18, val 13, val 14, val 15])] := by decide
+
+/-- the hypotheses of `omap_set_stores_holder` hold for this run -/
+example : ∃ E C, MLog run.1.addr run.2 runSame.2 E C ∧
+    ∃ id sv, (id, sv) ∈ MTree.slabs runSame.1.d runSame.1.root ∧ val 6 ∈ mslabVals sv ∧ lastAction E id = some true :=
+  omap_set_stores_holder (T := 256) (D := D2) legal256 run_good.cfgok run_good.inv (key_ok 312)
+    (by decide) (by decide) run.2 run_good.ctx run_ids stepSame
+
+/-- … and those of the uniqueness theorems -/
+example : ((MTree.toList run.1.d run.1.root).map (·.2)).Perm
+    ((MTree.slabs run.1.d run.1.root).flatMap (fun p => mslabVals p.2)) :=
+  mslab_vals_perm run.1.d true run.1.root run_good.inv.tree
+
+end NonVacuity
+end MapHolder
 
 end Atree
